@@ -498,6 +498,11 @@ class IndentationFitter(object):
             self.optimal_fit_edelta = False
             self.fit()
             self.optimal_fit_edelta = True
+            if not self.fp["success"]:
+                # The final fit could not be performed: the numbers of
+                # the scan are not the result of this fit.
+                for key in ["params_fitted", "chi_sqr", "xmin", "xmax"]:
+                    self.fp.pop(key, None)
 
         elif self.range_type == "absolute":
             # This is easy. Simply set the boolean array of fitting values
